@@ -335,9 +335,12 @@ theorem peer_reset_after_rst (w : World) (p i s : Nat) (loc rem : Addr) (r : RdH
     (∀ n peek, r.closed = false → n ≠ 0 → r.stash = none → (w.chan! r.chan).items = [] →
       ((w.receive p { src := rem, dst := loc, msg := .rst }).2.opTcpRead p s n peek).2 = "err reset") ∧
     (∀ x payload poll, wr = some x → x.loc = loc → x.rem = rem → x.shutdown = false → hexLen payload ≠ 0 →
-      w.credits x.fc ≠ 0 →
+      (w.credits x.fc ≠ 0 ∨ w.cfg.fixWriterReset = true) →
       ((w.receive p { src := rem, dst := loc, msg := .rst }).2.opTcpWrite p s payload poll).2 = "err brokenpipe") := by
   obtain ⟨h1, h2, h3, h4, h5, h6⟩ := rst_arrival w p i loc rem hp hf hu hc
+  have hcfg : (w.receive p { src := rem, dst := loc, msg := .rst }).2.cfg = w.cfg := by
+    have hr : w.receive p { src := rem, dst := loc, msg := .rst } = (false, (w.removeSock p loc rem).tag "rstrecv") := rfl
+    rw [hr]; simp
   refine ⟨h1, fun n peek hcl hn hst hit => ?_, fun x payload poll hwr hxl hxr hxs hlen hcr => ?_⟩
   · rw [C02.opTcpRead_empty _ p s n peek r wr (by rw [h5]; exact hobj) hcl hn hst (by rw [h4]; exact hit)]
     rw [hrc, h3]
@@ -345,31 +348,43 @@ theorem peer_reset_after_rst (w : World) (p i s : Nat) (loc rem : Addr) (r : RdH
   · subst hwr
     have hobj' : (w.receive p { src := rem, dst := loc, msg := .rst }).2.getObj p s = some (.stream (some r) (some x)) := by
       rw [h5]; exact hobj
-    have hcr' : (w.receive p { src := rem, dst := loc, msg := .rst }).2.credits x.fc ≠ 0 := by
-      unfold credits; rw [h6]; exact hcr
     have hf' : findSock ((w.receive p { src := rem, dst := loc, msg := .rst }).2.host! p) x.loc x.rem = none := by
       rw [hxl, hxr]; exact h2
     unfold opTcpWrite
     rw [hobj']
     simp only [hxs, Bool.and_false, Bool.false_eq_true, if_false]
-    rw [(C02.tryWrite_nosend _ p x payload).2.2.2 hlen hxs hcr' hf']
-    cases poll <;> rfl
+    cases hfx : w.cfg.fixWriterReset with
+    | true =>
+      rw [(C02.tryWrite_nosend _ p x payload).2.2.2.2 hlen hxs hf' (by rw [hcfg]; exact hfx)]
+      cases poll <;> rfl
+    | false =>
+      have hcr0 : w.credits x.fc ≠ 0 := by
+        rcases hcr with e | e
+        · exact e
+        · rw [hfx] at e; exact absurd e (by simp)
+      have hcr' : (w.receive p { src := rem, dst := loc, msg := .rst }).2.credits x.fc ≠ 0 := by
+        unfold credits; rw [h6]; exact hcr0
+      rw [(C02.tryWrite_nosend _ p x payload).2.2.2.1 hlen hxs hcr' hf' (by rw [hcfg]; exact hfx)]
+      cases poll <;> rfl
 
-/-- a polled write without a flow-control credit is `"pending"` — in any world, whatever has happened to the
-    socket: `try_write` asks `flow_control.try_acquire()` before it looks the socket up. -/
+/-- a polled write without a flow-control credit is `"pending"` — before the repair of F-C04-1 in any world,
+    whatever has happened to the socket (`try_write` asked `flow_control.try_acquire()` before it looked the
+    socket up); with the repair only while the socket still exists. -/
 theorem write_nocredit_pending (w : World) (p s : Nat) (rd : Option RdH) (x : WrH) (payload : Hex)
     (hobj : w.getObj p s = some (.stream rd (some x))) (hxs : x.shutdown = false) (hlen : hexLen payload ≠ 0)
-    (hcr : w.credits x.fc = 0) : w.opTcpWrite p s payload true = (w.tag "nocredit", "pending") := by
+    (hcr : w.credits x.fc = 0)
+    (hx : w.cfg.fixWriterReset = false ∨ (findSock (w.host! p) x.loc x.rem).isSome) :
+    w.opTcpWrite p s payload true = (w.tag "nocredit", "pending") := by
   unfold opTcpWrite
   rw [hobj]
   simp only [hxs, Bool.and_false, Bool.false_eq_true, if_false]
-  rw [(C02.tryWrite_nosend w p x payload).2.2.1 hlen hxs hcr]
+  rw [(C02.tryWrite_nosend w p x payload).2.2.1 hlen hxs hcr hx]
   rfl
 
 /-- the clause "a peer that has been told is never left pending", for `poll_write`. -/
-def ToldWriterUnblocked : Prop :=
+def ToldWriterUnblocked (fix : Bool) : Prop :=
   ∀ (w : World) (p i s : Nat) (loc rem : Addr) (rd : Option RdH) (x : WrH) (payload : Hex),
-    p < w.hosts.length → findSock (w.host! p) loc rem = some i → C12.UniqueKeys (w.host! p).socks →
+    w.cfg.fixWriterReset = fix → p < w.hosts.length → findSock (w.host! p) loc rem = some i → C12.UniqueKeys (w.host! p).socks →
     (C02.sockAt w p i).chan < w.chans.length →
     w.getObj p s = some (.stream rd (some x)) → x.loc = loc → x.rem = rem → x.shutdown = false →
     hexLen payload ≠ 0 →
@@ -395,14 +410,54 @@ def exTiny : World :=
     RST has reached it.  Host 0 of `exTiny` crashes (RST for the unread byte; `crashS exTiny 0` is
     `exTiny.crash 0`, see section 7), the RST is delivered to host 1, host 1 polls its write again:
     `"pending"`.  (A read by the same peer does return `"err reset"`.) -/
-theorem peer_write_blocked_stays_pending : ¬ ToldWriterUnblocked := by
+theorem peer_write_blocked_stays_pending : ¬ ToldWriterUnblocked false := by
   intro hk
   have := hk (crashS exTiny 0) 1 0 0 ⟨.host 1, 49152⟩ ⟨.host 0, 80⟩
     (some { loc := ⟨.host 1, 49152⟩, rem := ⟨.host 0, 80⟩, chan := 0, fc := 1 })
-    { loc := ⟨.host 1, 49152⟩, rem := ⟨.host 0, 80⟩, fc := 0 } "42" (by decide) (by decide)
+    { loc := ⟨.host 1, 49152⟩, rem := ⟨.host 0, 80⟩, fc := 0 } "42" (by decide) (by decide) (by decide)
     (by unfold C12.UniqueKeys; decide) (by decide) rfl (by decide) (by decide) (by decide) (by decide)
   revert this
   decide
+
+/-- **with the repair of F-C04-1 the clause holds**, for every world: once the RST for its pair has been
+    received, a write on the stream — polled or tried, with or without flow-control credit — returns
+    `"err brokenpipe"`, never `"pending"`. -/
+theorem told_writer_unblocked_fixed : ToldWriterUnblocked true := by
+  intro w p i s loc rem rd x payload hfx hp hf hu hc hobj hxl hxr hxs hlen
+  cases rd with
+  | some r =>
+    -- the read half's channel plays no part in the write clause: use the general lemma with any `hrc`
+    have h := rst_arrival w p i loc rem hp hf hu hc
+    obtain ⟨_, h2, _, _, h5, _⟩ := h
+    have hcfg : (w.receive p { src := rem, dst := loc, msg := .rst }).2.cfg = w.cfg := by
+      have hr : w.receive p { src := rem, dst := loc, msg := .rst } = (false, (w.removeSock p loc rem).tag "rstrecv") := rfl
+      rw [hr]; simp
+    have hobj' : (w.receive p { src := rem, dst := loc, msg := .rst }).2.getObj p s = some (.stream (some r) (some x)) := by
+      rw [h5]; exact hobj
+    have hf' : findSock ((w.receive p { src := rem, dst := loc, msg := .rst }).2.host! p) x.loc x.rem = none := by
+      rw [hxl, hxr]; exact h2
+    unfold opTcpWrite
+    rw [hobj']
+    simp only [hxs, Bool.and_false, Bool.false_eq_true, if_false]
+    rw [(C02.tryWrite_nosend _ p x payload).2.2.2.2 hlen hxs hf' (by rw [hcfg]; exact hfx)]
+    show (if (true && ("err brokenpipe" == "err wouldblock")) = true then "pending" else "err brokenpipe") ≠ "pending"
+    decide
+  | none =>
+    have h := rst_arrival w p i loc rem hp hf hu hc
+    obtain ⟨_, h2, _, _, h5, _⟩ := h
+    have hcfg : (w.receive p { src := rem, dst := loc, msg := .rst }).2.cfg = w.cfg := by
+      have hr : w.receive p { src := rem, dst := loc, msg := .rst } = (false, (w.removeSock p loc rem).tag "rstrecv") := rfl
+      rw [hr]; simp
+    have hobj' : (w.receive p { src := rem, dst := loc, msg := .rst }).2.getObj p s = some (.stream none (some x)) := by
+      rw [h5]; exact hobj
+    have hf' : findSock ((w.receive p { src := rem, dst := loc, msg := .rst }).2.host! p) x.loc x.rem = none := by
+      rw [hxl, hxr]; exact h2
+    unfold opTcpWrite
+    rw [hobj']
+    simp only [hxs, Bool.and_false, Bool.false_eq_true, if_false]
+    rw [(C02.tryWrite_nosend _ p x payload).2.2.2.2 hlen hxs hf' (by rw [hcfg]; exact hfx)]
+    show (if (true && ("err brokenpipe" == "err wouldblock")) = true then "pending" else "err brokenpipe") ≠ "pending"
+    decide
 
 /-! ## 6. the property's clause for an established stream -/
 
